@@ -48,6 +48,10 @@ def run(pid, tier):
         if len(st) >= 2:
             s2 = dict(s); s2['chunks'] = [st[i:i + 1] for i in range(len(st))] + [[]]
             scen.append(s2)
+    for s in pc.gen(rep, 'C01b', {}, nparts=4, timeout=600):
+        scen.append(s)                                   # truncated block, flushed
+        s2 = dict(s); s2['mode'] = 'P'; s2['chunks'] = [s['chunks'][0]]
+        scen.append(s2)                                  # the same line handed to SCPI_Parse
     # (b) mutated grammar streams
     pools = []
     for fam, consts in (('C02', dict(MaxUnits=2)), ('C06', dict(MaxUnits=2)), ('C08', dict(MaxUnits=1)), ('C05', dict(MaxSig=1, MaxItems=2, WsVariants='{0}'))):
